@@ -663,19 +663,42 @@ func (r *reporter) flush(mets []m3thrift.Metric) []m3thrift.Metric {
 func (r *reporter) convertTags(tags map[string]string) []m3thrift.MetricTag {
 	key := cache.TagMapKey(tags)
 
-	mtags, ok := r.tagCache.Get(key)
-	if !ok {
-		mtags = r.resourcePool.getMetricTagSlice()
-		for k, v := range tags {
-			mtags = append(mtags, m3thrift.MetricTag{
-				Name:  r.stringInterner.Intern(k),
-				Value: r.stringInterner.Intern(v),
-			})
-		}
-		mtags = r.tagCache.Set(key, mtags)
+	cached, ok := r.tagCache.Get(key)
+	if ok && tagsEqual(cached, tags) {
+		return cached
 	}
 
+	mtags := r.resourcePool.getMetricTagSlice()
+	for k, v := range tags {
+		mtags = append(mtags, m3thrift.MetricTag{
+			Name:  r.stringInterner.Intern(k),
+			Value: r.stringInterner.Intern(v),
+		})
+	}
+
+	// n.b. The cache is keyed by a 64-bit hash only, so an entry found under
+	//      this key may belong to a different tag set: never hand out a cached
+	//      slice that does not match the requested tags.
+	if ok {
+		return mtags
+	}
+	if cached = r.tagCache.Set(key, mtags); tagsEqual(cached, tags) {
+		return cached
+	}
 	return mtags
+}
+
+// tagsEqual returns whether mtags holds exactly the pairs of tags.
+func tagsEqual(mtags []m3thrift.MetricTag, tags map[string]string) bool {
+	if len(mtags) != len(tags) {
+		return false
+	}
+	for _, tag := range mtags {
+		if v, ok := tags[tag.Name]; !ok || v != tag.Value {
+			return false
+		}
+	}
+	return true
 }
 
 func (r *reporter) reportInternalMetrics() {
